@@ -1,6 +1,6 @@
 """C15 — encrypted integers: bootstrap, word operations and bit surgery match u32.
 
-Gate 1 (proof): lake build Poulpy.Props.C15 (bit_index bijection, pack/get_bit addressing, splice_u8/u16, sext,
+Gate 1 (proof): lake build Poulpy.Props.C15 (retriever_history, blind_rotation_rotates, bit_index bijection, pack/get_bit addressing, splice_u8/u16, sext,
         get_bit/get_byte bit positions over BitVec 32 for all inputs, decode, composition over abstract Cmux).
 Gate 2 (correspondence): the real code end to end (`pvh fheuint`, the crate's own smallest test parameters: N=256,
         n_lwe=77, rank 2, FFT64 Ref/AVX) — encrypt packed words, prepare through circuit bootstrapping, apply every
@@ -8,6 +8,9 @@ Gate 2 (correspondence): the real code end to end (`pvh fheuint`, the crate's ow
         every index, re-preparation pipelines, per-cell GGSW noise of the circuit-bootstrapped bits — vs the Lean
         model (`pdriver fheuint`: plaintext-level slot model; word ops through the C13 circuit tables) vs u32
         arithmetic in Python.
+        hist: ONE GLWEBlindRetriever reused for several streams (add… flush / retrieve, different lengths, every index of
+        the later stream) vs `Retr.history`; brot: glwe/ggsw/scalar blind rotation by an index field, every width 1..9,
+        in place and out of place, vs `blindRotationAssign` and the negacyclic rotation by ±(v << lsh).
 """
 from . import common
 from . import c13
@@ -188,13 +191,67 @@ def run(ctx):
                     f"sel bits={bits} rsh={rsh} idxword={w} keys={','.join(map(str, keys)) or '-'} vals={','.join(map(str, vals)) or '-'}",
                     tbl.get(v, 0), ("sel", bits, len(keys), v in tbl, BES[bk % 2]))
                 bk += 1
+    # ---- the retriever object used more than once (streaming add… flush, and retrieve after a streaming use)
+    hk = 0
+    for size in ([2, 3, 4, 8] if quick else [2, 3, 4, 5, 8, 16]):
+        nb = max(1, (size - 1).bit_length())
+        cap = 1 << nb
+        firsts = sorted(set([1, max(1, cap // 2), cap, max(1, cap // 2 - 1)]))
+        seconds = sorted(set([1, 2, cap // 2 + 1, cap])) if cap > 2 else [1, 2]
+        for l1 in firsts:
+            for l2 in seconds:
+                if l2 > cap:
+                    continue
+                for v in range(l2):
+                    if quick and size >= 8 and (v + l1 + l2) % 3:
+                        continue
+                    modes = [(0, 0), (0, 1), (1, 0), (0, 0, 0)][hk % 4]
+                    streams = [table(l1), table(l2)] if len(modes) == 2 else [table(l1), table(r.range(1, cap)), table(l2)]
+                    rsh = [0, 2, 7][hk % 3]
+                    w = idxword(v, rsh, nb)
+                    st = "|".join(",".join(map(str, x)) for x in streams)
+                    md = ",".join(map(str, modes))
+                    add(f"hist be={BES[hk % 2]} size={size} rsh={rsh} idxword={w} streams={st} modes={md}",
+                        f"hist size={size} rsh={rsh} idxword={w} streams={st} modes={md}",
+                        ("hist", streams, v), ("hist", size, l1, l2, modes))
+                    hk += 1
+    # ---- glwe / ggsw blind rotation by an encrypted index field: every width, odd and even, in place and out of place
+    logn2 = 9                      # log2(2N) for N = 256
+    for mask in range(1, logn2 + 1):
+        for kind in ("glwe", "glwe_assign"):
+            for rep in range(2):
+                lsh = r.range(0, logn2 - mask)
+                rsh = r.choice([0, 3, 32 - mask, 11])
+                if rsh + mask > 32:
+                    rsh = 32 - mask
+                top = rep                                  # field with its top bit set / clear
+                v = (r.below(1 << (mask - 1)) if mask > 1 else 0) | (top << (mask - 1))
+                sign = (mask + rep + (kind == "glwe")) % 2
+                w = idxword(v, rsh, mask)
+                want = (v << lsh) if sign else -(v << lsh)
+                pt = ",".join(str(((j * 7 + 3) % 13) - 6) for j in range(256))
+                add(f"brot be={BES[hk % 2]} kind={kind} sign={sign} rsh={rsh} mask={mask} lsh={lsh} idxword={w} want={want}",
+                    f"brot sign={sign} rsh={rsh} mask={mask} lsh={lsh} idxword={w} pt={pt}",
+                    ("brot", want), ("brot", kind, mask, sign, top, lsh > 0))
+                hk += 1
+    for mask in ([1, 2, 3, 4, 7, 8] if quick else range(1, logn2)):
+        for kind in ("scalar", "ggsw", "ggsw_assign"):
+            lsh = r.range(0, logn2 - 1 - mask)
+            rsh = r.choice([0, 5, 32 - mask])
+            v = r.below(1 << mask) | (1 << (mask - 1))
+            sign = (mask + len(kind)) % 2
+            w = idxword(v, rsh, mask)
+            want = (v << lsh) if sign else -(v << lsh)
+            add(f"brot be={BES[hk % 2]} kind={kind} sign={sign} rsh={rsh} mask={mask} lsh={lsh} idxword={w} want={want}",
+                None, ("brotg", want), ("brotg", kind, mask, sign))
+            hk += 1
     cbt_vals = [0x84838281] if quick else [0x84838281, 0, 0xFFFFFFFF, r.next() & M32]
     for ci, a in enumerate(cbt_vals):
         add(f"cbt be={BES[ci % 2]} a={a}", None, None, ("cbt", BES[ci % 2]))
 
     lines = [f"{i} {h}" for i, (h, m, w, key) in enumerate(reqs)]
     rc, outl, err = ctx.run_lines(binp, ["fheuint"], lines, timeout=3000)
-    mlines = [f"{i} {'blindsel' if key[0] in ('retr', 'retr1', 'sel') else 'fheuint'} {m}" for i, (h, m, w, key) in enumerate(reqs) if m is not None]
+    mlines = [f"{i} {'blindsel' if key[0] in ('retr', 'retr1', 'sel', 'hist', 'brot') else 'fheuint'} {m}" for i, (h, m, w, key) in enumerate(reqs) if m is not None]
     rc2, mout, _ = ctx.run_lines(drv, [], mlines)
     model = {}
     for ln in mout:
@@ -228,6 +285,44 @@ def run(ctx):
                     witness = witness or {"kind": "cbt", "line": lines[i], "implementation": got}
                 continue
             mv = model.get(i)
+            if kind == "hist":
+                if m is not None and mv != got:
+                    ctx.disagreements += 1
+                    if len(broken) < 20:
+                        broken.append(f"hist: {h[:200]} implementation={got[:80]} model={str(mv)[:80]}")
+                streams, v = want[1], want[2]
+                vals = got[3:].split(",") if got.startswith("ok ") else []
+                bad = None
+                if len(vals) != len(streams):
+                    bad = f"answer {got[:60]}"
+                else:
+                    for si, st_ in enumerate(streams):
+                        if v < len(st_) and vals[si] != str(st_[v]):
+                            bad = f"stream {si} (length {len(st_)}) returned {vals[si]} for index {v}, its element is {st_[v]}"
+                            break
+                if bad:
+                    ctx.oracle_failures += 1
+                    witness = witness or {"kind": "hist", "stream_lengths": [len(x) for x in streams], "index": v, "line": lines[i], "implementation": got[:200], "why": bad}
+                continue
+            if kind in ("brot", "brotg"):
+                if kind == "brot":
+                    if mv != got:
+                        ctx.disagreements += 1
+                        if len(broken) < 20:
+                            broken.append(f"brot: {h[:160]} implementation={got[:80]} model={str(mv)[:80]}")
+                    k = want[1]
+                    base = [((j * 7 + 3) % 13) - 6 for j in range(256)]
+                    exp = []
+                    for j in range(256):
+                        u = (j - k) % 512
+                        exp.append(base[u] if u < 256 else -base[u - 256])
+                    okb = got == "ok " + ",".join(map(str, exp))
+                else:
+                    okb = got.startswith("ok margin=") and float(got.split("=")[1]) <= 0.0
+                if not okb:
+                    ctx.oracle_failures += 1
+                    witness = witness or {"kind": kind, "line": lines[i], "implementation": got[:200], "want_rotation": want[1]}
+                continue
             if kind in ("retr", "retr1"):
                 if got.startswith("panic") and (mv or "").startswith("panic"):
                     mv = got                       # panic classes are not printed by this harness command
